@@ -18,6 +18,9 @@ theorem readEntry : Generated.fp_drpcmetadata_serialize_readEntry = Expected.fp_
 theorem readKeyValue : Generated.fp_drpcmetadata_serialize_readKeyValue = Expected.fp_drpcmetadata_serialize_readKeyValue := by decide
 theorem Encode : Generated.fp_drpcmetadata_metadata_Encode = Expected.fp_drpcmetadata_metadata_Encode := by decide
 theorem Decode : Generated.fp_drpcmetadata_metadata_Decode = Expected.fp_drpcmetadata_metadata_Decode := by decide
+theorem AddPairs : Generated.fp_drpcmetadata_metadata_AddPairs = Expected.fp_drpcmetadata_metadata_AddPairs := by decide
+theorem Add : Generated.fp_drpcmetadata_metadata_Add = Expected.fp_drpcmetadata_metadata_Add := by decide
+theorem Get : Generated.fp_drpcmetadata_metadata_Get = Expected.fp_drpcmetadata_metadata_Get := by decide
 theorem AppendVarint : Generated.fp_drpcwire_varint_AppendVarint = Expected.fp_drpcwire_varint_AppendVarint := by decide
 theorem ReadVarint : Generated.fp_drpcwire_varint_ReadVarint = Expected.fp_drpcwire_varint_ReadVarint := by decide
 theorem NewServerStream : Generated.fp_drpcmanager_manager_Manager_NewServerStream = Expected.fp_drpcmanager_manager_Manager_NewServerStream := by decide
